@@ -23,7 +23,7 @@ from .. import parserlab as lab
 from .. import factlab as fl
 
 LEVEL = "exploration"
-RULE = ("histories over a pool of 63 scripts (valid with differing requires, invalid, "
+RULE = ("histories over a pool of 66 scripts (valid with differing requires, invalid, "
         "truncated mid-string-list / mid-test-list / mid-block / mid-command, ending in "
         "comments, with name/description hash comments, scripts that name a comparator / "
         "capability / identifier which another script uses in a different role) and 14 factory steps + 1 commands-API step (definitions "
@@ -117,6 +117,10 @@ SCRIPTS = [
     # to parse() as str; whatever happens must not depend on what the Parser did before
     # a command whose completion callback runs ANOTHER Parser to its end (rv/parserlab.py):
     # what that other Parser was given must not show in this script's outcome
+    # a test left without its arguments right before a block (the lexer is rewound there)
+    'require "imap4flags"; if hasflag { keep; }',
+    'require "imap4flags";\nif hasflag :is {\n keep;\n}',
+    'require "imap4flags"; if anyof (hasflag, true) { keep; }',
     'includex "a"; keep;',
     'if true { includex "abcdef"; stop; } discard;',
     'keep;\nincludex "abc";\nfoobar;',
